@@ -45,6 +45,24 @@ def _int_to_yaml(value: int) -> str:
         return hex(value)
 
 
+_OTHER_SCALAR_TAGS = {
+        'tag:yaml.org,2002:' + name
+        for name in ('null', 'bool', 'int', 'float', 'timestamp', 'binary')}
+
+
+def _is_attribute_key(key_node: yaml.Node, attribute: str) -> bool:
+    """Whether a key of a mapping is the given attribute.
+
+    Attribute names are strings, so a key that YAML reads as
+    something else (``null``, ``true``, ``1``) is not an attribute,
+    also if it is written the same.
+    """
+    return (
+            isinstance(key_node, yaml.ScalarNode)
+            and key_node.tag not in _OTHER_SCALAR_TAGS
+            and key_node.value == attribute)
+
+
 class Node:
     """A wrapper class for yaml Nodes that provides utility functions.
 
@@ -209,7 +227,8 @@ class Node:
             # attribute, also when given a scalar or a sequence
             return False
         return any([
-            key_node.value == attribute for key_node, _ in self.yaml_node.value
+            _is_attribute_key(key_node, attribute)
+            for key_node, _ in self.yaml_node.value
         ])
 
     def has_attribute_type(self, attribute: str, typ: Optional[Type]) -> bool:
@@ -276,7 +295,7 @@ class Node:
         """
         matches = [
             value_node for key_node, value_node in self.yaml_node.value
-            if key_node.value == attribute
+            if _is_attribute_key(key_node, attribute)
         ]
         if len(matches) != 1:
             raise SeasoningError(
@@ -459,7 +478,7 @@ class Node:
             new_name: The new name to rename it to.
         """
         for key_node, _ in self.yaml_node.value:
-            if key_node.value == attribute:
+            if _is_attribute_key(key_node, attribute):
                 key_node.value = new_name
                 break
 
@@ -846,13 +865,15 @@ class Node:
             value_node = yaml.MappingNode(
                     value_node.tag,
                     [(k, v) for k, v in value_node.value
-                        if k.value != key_attribute],
+                        if not _is_attribute_key(k, key_attribute)],
                     value_node.start_mark, value_node.end_mark)
 
             # replace mapping with value attribute, if it's the only one
             if (
+                    value_attribute is not None and
                     len(value_node.value) == 1 and
-                    value_node.value[0][0].value == value_attribute):
+                    _is_attribute_key(
+                        value_node.value[0][0], value_attribute)):
                 new_value.append((key_node, value_node.value[0][1]))
             else:
                 new_value.append((key_node, value_node))
@@ -1039,7 +1060,7 @@ class Node:
         """Finds an attribute's index in the yaml_node.value list."""
         attr_index = None
         for i, (key_node, _) in enumerate(self.yaml_node.value):
-            if key_node.value == attribute:
+            if _is_attribute_key(key_node, attribute):
                 attr_index = i
                 break
         return attr_index
